@@ -5,5 +5,5 @@ P=$1; shift
 [ -d /tmp/dev ] || git -C /repo worktree add -q --detach /tmp/dev HEAD
 git -C /tmp/dev checkout -q -- .
 [ "$P" = "-" ] || git -C /tmp/dev apply "$P"
-for pid in "$@"; do VERIF_REPO=/tmp/dev /verif/check $pid | grep -v "^KNOWN-FINDING" ; done
+mkdir -p /tmp/dev_ev; for pid in "$@"; do VERIF_REPO=/tmp/dev VERIF_EVIDENCE_DIR=/tmp/dev_ev /verif/check $pid | grep -v "^KNOWN-FINDING" ; done
 git -C /tmp/dev checkout -q -- .
